@@ -6,12 +6,20 @@ use std::sync::{Arc, Mutex};
 #[derive(Clone, Default)]
 pub struct SharedSink {
     inner: Arc<Mutex<(Vec<u8>, u64)>>, // (data, position)
+    /// when non-zero, one `write` call accepts at most this many bytes (a legal `Write`: callers must loop)
+    short: usize,
 }
 
 impl SharedSink {
     pub fn with(data: Vec<u8>) -> Self {
         let pos = data.len() as u64;
-        SharedSink { inner: Arc::new(Mutex::new((data, pos))) }
+        SharedSink { inner: Arc::new(Mutex::new((data, pos))), short: 0 }
+    }
+    /// a destination that takes at most `n` bytes per `write` call
+    pub fn with_short(data: Vec<u8>, n: usize) -> Self {
+        let mut s = Self::with(data);
+        s.short = n;
+        s
     }
     pub fn contents(&self) -> Vec<u8> {
         self.inner.lock().unwrap().0.clone()
@@ -23,6 +31,7 @@ impl SharedSink {
 
 impl Write for SharedSink {
     fn write(&mut self, buf: &[u8]) -> io::Result<usize> {
+        let buf = if self.short > 0 && buf.len() > self.short { &buf[..self.short] } else { buf };
         let mut g = self.inner.lock().unwrap();
         let pos = g.1 as usize;
         if g.0.len() < pos {
